@@ -20,8 +20,8 @@ func (ex *Exec) openHandle(st *State, ref, cond string) {
 		return
 	}
 	op, cn := ex.tsArrays(st)
-	st.H["X|isOpen"] = ex.name("isopen", ite(cond, sto(op, ref, "true"), op), arrSort(sInt, sBool))
-	st.H["X|closeN"] = ex.name("closen", ite(cond, sto(cn, ref, "0"), cn), arrSort(sInt, sInt))
+	ex.setH(st, "X|isOpen", ex.name("isopen", ite(cond, sto(op, ref, "true"), op), arrSort(sInt, sBool)))
+	ex.setH(st, "X|closeN", ex.name("closen", ite(cond, sto(cn, ref, "0"), cn), arrSort(sInt, sInt)))
 }
 
 // closeHandle: obligation that the handle is open, then closes it.
@@ -36,8 +36,8 @@ func (ex *Exec) closeHandle(c *callCtx, ref, what string) {
 		ex.oblige(lbl, "nopanic", props, imp(c.r(), sel(op, ref)), ex.posOf(c.instr.Pos()), what+" closed while not open (closed twice, or never opened)")
 	}
 	r := c.r()
-	c.st.H["X|isOpen"] = ex.name("isopen", ite(r, sto(op, ref, "false"), op), arrSort(sInt, sBool))
-	c.st.H["X|closeN"] = ex.name("closen", ite(r, sto(cn, ref, app("+", sel(cn, ref), "1")), cn), arrSort(sInt, sInt))
+	ex.setH(c.st, "X|isOpen", ex.name("isopen", ite(r, sto(op, ref, "false"), op), arrSort(sInt, sBool)))
+	ex.setH(c.st, "X|closeN", ex.name("closen", ite(r, sto(cn, ref, app("+", sel(cn, ref), "1")), cn), arrSort(sInt, sInt)))
 }
 
 func (ex *Exec) netType(pkg, name string) types.Type {
@@ -60,9 +60,9 @@ func init() {
 				kindv = "2"
 				// C20: a TCP connection attempt to the target was made
 				ex.registerKey("X|tcpDialed", sBool)
-				c.st.H["X|tcpDialed"] = ex.name("tcpdialed", or(ex.heapGet(c.st, "X|tcpDialed", sBool), c.r()), sBool)
+				ex.setH(c.st, "X|tcpDialed", ex.name("tcpdialed", or(ex.heapGet(c.st, "X|tcpDialed", sBool), c.r()), sBool))
 			}
-			c.st.H["X|connKind"] = ex.name("connkind", sto(k, ref, kindv), arrSort(sInt, sInt))
+			ex.setH(c.st, "X|connKind", ex.name("connkind", sto(k, ref, kindv), arrSort(sInt, sInt)))
 			ex.advanceClock(c.st, c.r())
 			e := ex.newWrappedError(c.st, nil, not(ok), "dialerr")
 			return Val{L: []string{ite(ok, tag, "0"), ite(ok, ref, "0"), e.L[0], e.L[1]}}
